@@ -821,6 +821,9 @@ class Parser:
             table.fields.append(self._parse_field())
             if self.current_token.type in (TokenType.COMMA, TokenType.SEMICOLON):
                 self._eat_token()
+            else:
+                # without a separator, this has to be the last field
+                break
         self._eat_token(TokenType.R_CURL)
         self._remove_hint()
         return table
